@@ -2054,3 +2054,72 @@ Proof.
     apply AttSrvProofsC01.some_inj in H. apply AttSrvProofsC01.pair_inj in H. destruct H as [<- <-]. cbn [fst snd].
     split; [pose proof (N.le_0_l ((co_cur k - 2) mod 256)); lia|]. rewrite (put_nth _ _ _ _ _ Ep). reflexivity.
 Qed.
+
+(* ================================================================== Part E: maximality ("as far as fits") *)
+(* Read By Group Type: the walk ends in front of a wanted service only if that service has another uuid
+   size or does not fit into what is left of the response *)
+Definition rbg_stop_reason (is128 : bool) (avail : N) (W rest : list (N * N * service_decl)) : Prop :=
+  match rest with
+  | [] => True
+  | g' :: _ => is_128bit (s_uuid (snd g')) <> is128 \/ avail - gsize is128 * len W < gsize is128
+  end.
+
+Lemma walk_rest_maximal G lo hi is128 avail :
+  exists rest, filter (group_wanted lo hi) G = walk_rest G lo hi false is128 avail ++ rest
+               /\ rbg_stop_reason is128 avail (walk_rest G lo hi false is128 avail) rest.
+Proof.
+  revert avail; induction G as [|g t IH]; intros avail; cbn [walk_rest filter]; [exists []; split; [reflexivity|exact I]|].
+  cbn [negb andb]. rewrite wanted_cond. destruct (group_wanted lo hi g) eqn:Eg; [|apply IH].
+  cbv zeta. destruct (Bool.eqb is128 (is_128bit (s_uuid (snd g))) && (gsize is128 <=? avail)) eqn:Ee.
+  - apply andb_true_iff in Ee. destruct Ee as [Ee1 Ee2]. rewrite Ee1. cbn [negb].
+    destruct (IH (avail - gsize is128)) as (rest & H1 & H2). exists rest. split; [cbn [app]; f_equal; exact H1|].
+    unfold rbg_stop_reason in *. destruct rest as [|g' r]; [exact I|]. destruct H2 as [H2|H2]; [left; exact H2|right].
+    unfold len in *. cbn [length]. lia.
+  - rewrite walk_rest_blocked.
+    + exists (g :: filter (group_wanted lo hi) t). split; [reflexivity|]. cbn [rbg_stop_reason].
+      apply andb_false_iff in Ee. destruct Ee as [Ee|Ee].
+      * left. intros X. rewrite X, eqb_reflx in Ee. discriminate Ee.
+      * right. unfold len. cbn [length]. lia.
+    + apply andb_false_iff in Ee. destruct Ee as [Ee|Ee]; [left; rewrite Ee; reflexivity|right; lia].
+Qed.
+
+Theorem walk_first_maximal G lo hi avail :
+  20 <= avail ->
+  match walk_first G lo hi avail with
+  | [] => filter (group_wanted lo hi) G = []
+  | g :: W =>
+      exists rest, filter (group_wanted lo hi) G = (g :: W) ++ rest
+                   /\ rbg_stop_reason (is_128bit (s_uuid (snd g))) avail (g :: W) rest
+  end.
+Proof.
+  intros Ha. induction G as [|g t IH]; cbn [walk_first filter]; [reflexivity|].
+  rewrite wanted_cond. destruct (group_wanted lo hi g) eqn:Eg; [|exact IH].
+  cbv zeta. replace (gsize (is_128bit (s_uuid (snd g))) <=? avail) with true by (unfold gsize; destruct (is_128bit (s_uuid (snd g))); lia).
+  destruct (walk_rest_maximal t lo hi (is_128bit (s_uuid (snd g))) (avail - gsize (is_128bit (s_uuid (snd g))))) as (rest & H1 & H2).
+  exists rest. split; [cbn [app]; f_equal; exact H1|].
+  unfold rbg_stop_reason in *. destruct rest as [|g' r]; [exact I|]. destruct H2 as [H2|H2]; [left; exact H2|right].
+  unfold len in *. cbn [length]. unfold gsize in *. destruct (is_128bit (s_uuid (snd g))); lia.
+Qed.
+
+(* Find Information: the walk ends in front of an attribute of its uuid format (in range) only if no further
+   pair fits into what is left of the response *)
+Lemma fi_walk_maximal W e only16 avail p :
+  increasing_from p (map fst W) = true ->
+  exists rest,
+    filter (fun y => (fst y <=? e) && Bool.eqb only16 (is16 (snd y))) W = fi_walk W e only16 avail ++ rest
+    /\ (rest <> [] -> avail - fsize only16 * len (fi_walk W e only16 avail) < fsize only16).
+Proof.
+  revert avail p; induction W as [|x t IH]; intros avail p Hs; cbn [fi_walk filter]; [exists []; split; [reflexivity|congruence]|].
+  cbn [map increasing_from] in Hs. apply andb_true_iff in Hs. destruct Hs as [Hs1 Hs2].
+  destruct (fst x <=? e) eqn:Ex; cbn [andb].
+  - destruct (fsize only16 <=? avail) eqn:Er.
+    + destruct (Bool.eqb only16 (is16 (snd x))) eqn:Ee.
+      * destruct (IH (avail - fsize only16) (fst x) Hs2) as (rest & H1 & H2). exists rest. split; [cbn [app]; f_equal; exact H1|].
+        intros Hne. specialize (H2 Hne). unfold len in *. cbn [length]. lia.
+      * apply (IH avail (fst x) Hs2).
+    + eexists. split; [reflexivity|]. intros _. unfold len. cbn [length]. lia.
+  - exists []. split; [|congruence]. cbn [app].
+    (* behind e: nothing further is in range *)
+    apply filter_all_false. intros y Hy. apply (in_map fst) in Hy. pose proof (increasing_from_lower _ _ _ Hs2 Hy).
+    replace (fst y <=? e) with false by lia. reflexivity.
+Qed.
